@@ -200,6 +200,7 @@ func vcRunC10(t *vcTrial) {
 	}
 	calls := vc12Calls()
 	staleCalls, reuses, fdReuses, windows := 0, 0, 0, 0
+	closesUnderWrite := 0
 	for step := 0; step < nops && !t.Violated() && t.inconclusive == ""; step++ {
 		switch k := r.intn(10); {
 		case k < 2 && len(pool.live) < 8:
@@ -269,6 +270,61 @@ func vcRunC10(t *vcTrial) {
 			}
 			vc.closed = true
 			pool.dead = append(pool.dead, vc)
+		case k == 4 && len(pool.live) > 1 && r.chance(50):
+			// close under write: one writer goroutine keeps sending on A while this goroutine closes A
+			// and opens new connections at once (A's descriptor number is re-issued immediately). A
+			// send that is still in flight for A must never reach the new owner of that number.
+			j := r.intn(len(pool.live))
+			vc := pool.live[j]
+			pool.live = append(pool.live[:j], pool.live[j+1:]...)
+			go func(p net.Conn) { // A's peer drains and discards
+				buf := make([]byte, 64<<10)
+				for {
+					p.SetReadDeadline(time.Now().Add(2 * time.Second))
+					if _, err := p.Read(buf); err != nil {
+						return
+					}
+				}
+			}(vc.peer)
+			junk := make([]byte, r.rng(64<<10, 1<<20))
+			for i := range junk {
+				junk[i] = 0xAB
+			}
+			wdone := make(chan struct{})
+			go func() {
+				defer close(wdone)
+				defer func() { recover() }() // a writer racing Close may hit D22; not this step's subject
+				for i := 0; i < 400; i++ {
+					if _, err := vc.conn.Write(junk); err != nil {
+						return
+					}
+				}
+			}()
+			time.Sleep(time.Duration(r.intn(3000)) * time.Microsecond)
+			vc.conn.Close()
+			vc.closed = true
+			pool.dead = append(pool.dead, vc)
+			for n := 0; n < 2 && len(pool.live) < 8; n++ {
+				nv := pool.open()
+				if nv == nil {
+					return
+				}
+				if nv.fd == vc.fd {
+					fdReuses++
+				}
+				if err := nv.echo(r.rng(1, 3000), 5*time.Second); err != nil {
+					pool.judgeEcho(nv, err, append(hist, fmt.Sprintf("close-under-write#%d", vc.id)))
+					return
+				}
+			}
+			select {
+			case <-wdone:
+			case <-time.After(10 * time.Second):
+				t.Inconclusive("writer on a closed connection did not stop within 10s")
+				return
+			}
+			closesUnderWrite++
+			hist = append(hist, fmt.Sprintf("close-under-write#%d", vc.id))
 		case k < 7 && len(pool.dead) > 0:
 			// a stale call on a closed connection, while the others are live
 			vc := pool.dead[r.intn(len(pool.dead))]
@@ -326,6 +382,7 @@ func vcRunC10(t *vcTrial) {
 	}
 	t.P("history_tail", hist[vcMaxInt(0, len(hist)-12):])
 	t.Stat("cache_exhausting_fillers", fillers)
+	t.Stat("closes_under_write", closesUnderWrite)
 	t.Stat("stale_calls", staleCalls)
 	t.Stat("slot_reuses", reuses)
 	t.Stat("fd_number_reuses", fdReuses)
